@@ -29,6 +29,9 @@ def substitute(expr, mapping):
         def visit_Name(self, n):
             if n.id in mapping and isinstance(n.ctx, ast.Load):
                 return ast.copy_location(clone(mapping[n.id]), n)
+            if n.id in mapping and isinstance(n.ctx, ast.Store) and isinstance(mapping[n.id], ast.Name):
+                # a comprehension target renamed together with its uses
+                return ast.copy_location(ast.Name(id=mapping[n.id].id, ctx=ast.Store()), n)
             return n
     return Sub().visit(clone(expr))
 
@@ -80,6 +83,50 @@ def expanded(expr, fn):
 
 def enorm(expr, fn):
     return norm(expanded(expr, fn))
+
+
+def fold_static(tree):
+    """in place: f-strings whose parts are all constants become the constant, `getattr(x, "name")` becomes `x.name`, a
+    statement `setattr(x, "name", v)` becomes `x.name = v` — what remains of "the attribute called so-and-so" once a
+    helper's parameters have been replaced by the constants its caller passes"""
+    class T(ast.NodeTransformer):
+        def visit_JoinedStr(self, node):
+            self.generic_visit(node)
+            out = ""
+            for v in node.values:
+                if isinstance(v, ast.Constant):
+                    out += str(v.value)
+                elif isinstance(v, ast.FormattedValue) and isinstance(v.value, ast.Constant) and v.conversion == -1 \
+                        and v.format_spec is None and isinstance(v.value.value, str):
+                    out += v.value.value
+                else:
+                    return node
+            return ast.copy_location(ast.Constant(value=out), node)
+
+        def visit_Call(self, node):
+            self.generic_visit(node)
+            if isinstance(node.func, ast.Name) and node.func.id == "getattr" and len(node.args) == 2 and not node.keywords \
+                    and isinstance(node.args[1], ast.Constant) and isinstance(node.args[1].value, str) \
+                    and node.args[1].value.isidentifier():
+                return ast.copy_location(ast.Attribute(value=node.args[0], attr=node.args[1].value, ctx=ast.Load()), node)
+            return node
+
+        def visit_Expr(self, node):
+            self.generic_visit(node)
+            c = node.value
+            if isinstance(c, ast.Call) and isinstance(c.func, ast.Name) and c.func.id == "setattr" and len(c.args) == 3 \
+                    and not c.keywords and isinstance(c.args[1], ast.Constant) and isinstance(c.args[1].value, str) \
+                    and c.args[1].value.isidentifier():
+                tgt = ast.copy_location(ast.Attribute(value=c.args[0], attr=c.args[1].value, ctx=ast.Store()), node)
+                return ast.copy_location(ast.Assign(targets=[tgt], value=c.args[2]), node)
+            return node
+    t = T().visit(tree)
+    for n in ast.walk(t):
+        if isinstance(n, ast.Assign):
+            for tg in n.targets:
+                if isinstance(tg, (ast.Attribute, ast.Subscript)) and not isinstance(tg.ctx, ast.Store):
+                    tg.ctx = ast.Store()
+    return t
 
 
 def inline_helpers(fn, find_method, max_body=12, only=None):
@@ -139,6 +186,7 @@ def inline_helpers(fn, find_method, max_body=12, only=None):
             out.append(s)
         return out
     fn.body = rewrite(fn.body)
+    fold_static(fn)
     for n in ast.walk(fn):
         for ch in ast.iter_child_nodes(n):
             ch._parent = n
@@ -260,6 +308,7 @@ def helper_view(h, call):
     m = _bind_call(h, call)
     hb = clone(h)
     hb.body = [substitute_stmt(b, m) for b in hb.body]
+    fold_static(hb)
     for n in ast.walk(hb):
         if hasattr(n, "lineno"):
             n.lineno = call.lineno
